@@ -523,6 +523,82 @@ def run(eng, ctx, layout_only=False):
                 m["ordinals"].add(("lenplus1", ("loop", lid, cname)))
         model[fld] = m
 
+    # a per-satellite entry of the map the PRN consumer reads must not wait for a cell bit: NSAT counts every set satellite bit, whether or not any
+    # of the satellite's cells is set, so an entry made only under a test of the cell mask is missing for a satellite whose cell row is empty
+    tc0 = T.type_consts
+    satf = None  # the instance field the PRN consumer reads
+    for typ_, leaf_, _e in derived_consumers(eng)[0]:
+        if typ_ == tc0["PRN"] and leaf_[0] == "idx" and leaf_[1][0] == "field":
+            satf = leaf_[1][1]
+    if sat_field in scans and cell_field is not None:
+        sc_ = scans[sat_field]
+        slid = sc_["loop"][-1]
+
+        def _on_cells(c):
+            return any(_mask_field(st) == cell_field for st in subterms(c) if isinstance(st, tuple) and st)
+
+        def _loops_of(t):
+            return {st[1] for st in subterms(t) if isinstance(st, tuple) and len(st) >= 2 and st[0] in ("loop", "elem") and isinstance(st[-1 if st[0] == "elem" else 1], str)}
+
+        into = [e for e in se.effects if e.kind == "setitem" and e.target[0] == "item" and e.target[1][0] in ("loop", "loopout") and e.target[1][2] == f"self.{satf}"] if satf else []
+        gated = [e for e in into if e in sc_["effects"] and len(e.loops) > len(sc_["loop"]) and any(_on_cells(c) for c, _p in e.guards)
+                 and not (_loops_of(e.target[2]) - set(sc_["loop"]))]
+        if gated and len(gated) == len(into):
+            e = gated[0]
+            ctx.bad("C09.D2", mb.qualname, f"entry of self.{satf} for a set bit of {sat_field}", expected=f"one entry per set satellite bit, whatever {cell_field} holds (NSAT counts the satellite either way)",
+                    found=f"the only store into self.{satf} is made under a test of {cell_field} inside the inner loop: a satellite none of whose cells is set gets no entry, and the PRN lookup for a later ordinal misses", **eng.loc(mb, e.node))
+
+    # a walk over the constellation's own table (`for sid, prn in table.items()`, or the same as a comprehension) that numbers what it finds by the
+    # order of the visit - a counter, a list - assumes that the table lists its IDs in ascending order, which is the order of the mask bits
+    from ..memo import Unfoldable as _Unf, fold_term as _fold
+
+    for lid_, info_ in loops.items():
+        it_ = info_.get("iter", ("none",))
+        if not (isinstance(it_, tuple) and it_):
+            continue
+        el_ = ("elem", it_, lid_)
+        base_, key_ = it_, el_
+        if it_[0] == "call" and it_[2][0] == "attr" and it_[2][2] in ("items", "keys", "values") and not it_[3]:
+            base_ = it_[2][1]
+            key_ = ("proj", el_, 0) if it_[2][2] == "items" else (el_ if it_[2][2] == "keys" else None)
+        if not any(isinstance(st, tuple) and st and st[0] == "gval" for st in subterms(base_)):
+            continue
+        orders = {}
+        for pfx in sorted(orc["signals"]):
+            try:
+                tb = _fold(eng, base_, {"__terms__": {("field", "identity"): pfx + "4", ("attr", ("self",), "identity"): pfx + "4"}})
+            except _Unf:
+                orders = None
+                break
+            if type(tb) is not dict and not (isinstance(tb, dict)) or not all(isinstance(k_, int) for k_ in tb):
+                orders = None
+                break
+            orders[pfx] = list(tb)
+        if not orders:
+            continue
+        unsorted_ = [(pfx, ks) for pfx, ks in orders.items() if ks != sorted(ks)]
+        if not unsorted_:
+            continue
+        positional = False
+        if info_.get("comp"):
+            comps_ = [st for v in list(se.final.env.values()) + [x.term for x in se.effects] for st in subterms(v) if isinstance(st, tuple) and len(st) == 4 and st[0] == "comp" and st[1] in ("ListComp", "GeneratorExp") and st[3] == lid_]
+
+            def _uses_key(t):
+                if t == key_ or t == el_:
+                    return True
+                if isinstance(t, tuple) and len(t) == 3 and t[0] == "proj" and t[1] == el_:
+                    return False  # another component of the visited item
+                return any(_uses_key(x) for x in t if isinstance(x, tuple)) if isinstance(t, tuple) else False
+
+            positional = bool(comps_) and (key_ is None or not any(_uses_key(c_[2]) for c_ in comps_))
+        else:
+            positional = any(m_["lid"] == lid_ and (m_["counter"] is not None or m_["cont"] is not None) for m_ in model.values())
+        if positional:
+            pfx, ks = unsorted_[0]
+            first_ = next(i for i in range(len(ks) - 1) if ks[i] > ks[i + 1]) if len(ks) > 1 else 0
+            real_ctx.bad("C09.D2", mb.qualname, f"order of the walk over the {orc['names'][pfx]} table", expected="satellite / signal IDs visited in ascending order (the order of the mask bits, most significant first), since what is found is numbered by the order of the visit",
+                         found=f"the table is walked in its own order, and for {orc['names'][pfx]} it lists ID {ks[first_]} before ID {ks[first_ + 1]}: labels are handed to the wrong ordinals whenever both bits are set", **eng.loc(mb, info_.get("node", mb.node)))
+
     def is_ordinal(t, m):
         if t in m["ordinals"]:
             return True
@@ -796,6 +872,23 @@ def run(eng, ctx, layout_only=False):
                     recvs.setdefault(fld, st[1])
     for fld, r in ((alg or {}).get("recvs") or {}).items():
         recvs.setdefault(fld, r)  # the tables named by the label lookups of the normal form
+    if sat_field not in recvs and satf:
+        # the satellite scan has a shape the rules above do not follow (say a `while` over the shifted mask): the table it consults is still the
+        # receiver of the label lookup whose result is stored in the field the PRN consumer reads
+        sub0 = {"__terms__": {("field", "identity"): "1074", ("attr", ("self",), "identity"): "1074"}}
+        for e in se.effects:
+            if e.kind == "setitem" and e.target[0] == "item" and e.target[1][0] in ("loop", "loopout") and e.target[1][2] == f"self.{satf}":
+                for st in subterms(e.term):
+                    r = st[2][1] if (isinstance(st, tuple) and st and st[0] == "call" and len(st) == 5 and st[2][0] == "attr" and st[2][2] == "get" and len(st[3]) >= 1) else (st[1] if (isinstance(st, tuple) and st and st[0] == "idx") else None)
+                    if r is None or sat_field in recvs:
+                        continue
+                    try:
+                        tb = fold_term(eng, r, sub0)
+                    except Unfoldable:
+                        continue
+                    vals = list(tb.values()) if isinstance(tb, dict) else (list(tb) if isinstance(tb, (list, tuple)) else None)
+                    if vals and all(isinstance(x, str) for x in vals):
+                        recvs[sat_field] = r
     ident_terms = [("field", "identity"), ("attr", ("self",), "identity")]
     for pfx, want in sorted(orc["signals"].items()):
         name = orc["names"][pfx]
@@ -815,6 +908,12 @@ def run(eng, ctx, layout_only=False):
 
                 if isinstance(err, FoldRaises):
                     ctx.bad("C09.D3", mb.qualname, f"table consulted by the scan of {fld} for {name}", expected=f"the {name} table for identities {pfx}x", found=f"selecting the table for identity {pfx}4: {err}", **eng.loc(mb, mb.node))
+                elif any(isinstance(st_, tuple) and st_ and st_[0] == "undef" for st_ in subterms(recvs[fld])):
+                    # the label look-up goes to a local that is not bound at that point: every MSM message fails to decode
+                    ctx.bad("C09.D3", mb.qualname, f"table consulted by the scan of {fld} for {name}", expected=f"the {name} table for identities {pfx}x", found=f"a local that is not bound there: {show(recvs[fld])[:60]}", **eng.loc(mb, mb.node))
+                elif not any(isinstance(st_, tuple) and st_ and st_[0] in ("gval", "call", "field", "fieldv", "param") for st_ in subterms(recvs[fld])):
+                    # nothing in it comes from a table, a call or the instance (a loop variable, a counter, a constant): not the constellation's table
+                    ctx.bad("C09.D3", mb.qualname, f"table consulted by the scan of {fld} for {name}", expected=f"the {name} table for identities {pfx}x", found=f"`{show(recvs[fld])[:60]}`, which is no table", **eng.loc(mb, mb.node))
                 else:
                     ctx.undecided("C09.D3", mb.qualname, f"table consulted by the scan of {fld} for {name}", detail=f"not foldable: {err}", **eng.loc(mb, mb.node))
         prnmap, sigmap = tabs.get(sat_field), tabs.get(sig_field)
@@ -829,6 +928,9 @@ def run(eng, ctx, layout_only=False):
                           found=("; ".join(f"ID {k}: standard {w}, table {g}" for k, (w, g) in sorted(diff.items(), key=lambda kv: int(kv[0]))[:5])) if diff else f"{len(got)} codes equal", **loc)
                 bad_shape = [k for k, v in sigmap.items() if not (isinstance(v, tuple) and len(v) == 2 and all(isinstance(x, str) for x in v)) or not isinstance(k, int)]
                 ctx.check(not bad_shape, "C09.D3", f"signal table for {pfx} ({name})", "signal entries are (band, code) pairs keyed by int", expected="int -> (str, str)", found=str(bad_shape[:3]), **loc)
+        if isinstance(prnmap, (list, tuple)) and prnmap and all(isinstance(x, str) for x in prnmap):
+            # dense form: slot i holds the label of satellite ID i, the not-available marker where the standard defines none (slot 0 stands for no mask bit)
+            prnmap = {i: v for i, v in enumerate(prnmap) if i >= 1 and v != NA}
         if prnmap is not None:
             if not isinstance(prnmap, dict):
                 ctx.bad("C09.D3", f"PRN table for {pfx} ({name})", "table", expected="dict: satellite ID -> PRN", found=repr(prnmap)[:60], **loc)
